@@ -1,6 +1,7 @@
 import NixModel.Pure.Dim
 import NixModel.Pure.DimSpec
 import NixModel.Lemmas.C07Sep
+import NixModel.Lemmas.C07Session
 
 /-!
 # C07 — dimension descriptors map positions to sample indices by order, exactly
@@ -304,6 +305,234 @@ example : sampledIndexOf (-5) 2 0 .less = .ok 2 ∧ sampledIndexOf (-5) 1 0 .les
     sampledIndexOf (-5) 1 (-5) .less = .error .indexError ∧
     sampledIndexOf 0 1 (1000004 / 10) .geq = .ok 100001 := by decide +kernel
 example : setIndexOf 3 (5 / 2) .geq = .error .indexError ∧ setIndexOf 0 (5 / 2) .geq = .ok 3 := by
+  decide +kernel
+
+/-! ## sessions: the configuration changes between the questions, descriptor objects stay alive
+
+`NixModel/Pure/DimSession.lean`: the dimensions of one array, the sources links point to, handles
+(descriptor objects) and histories of appends, changes (offset, interval, ticks, labels, link,
+unlink, unit, label, rewriting a linked source) and questions.  Statements are for ALL histories. -/
+
+section Sessions
+open Nix.DimSession Nix.DimSession.Lemmas
+
+/-- **a question is answered from the stored configuration of the dimension, whichever descriptor
+object asks**: in the state any history reaches from any state, the answer through handle `h` is
+`answer` of the record of `h`'s dimension — so two handles of one dimension always agree, and a
+question never changes anything -/
+theorem session_answer (st0 : State) (ops : List Op) (h d : Nat) (r : DimRec) (q : Query)
+    (hh : (finalState st0 ops).handles[h]? = some d) (hd : (finalState st0 ops).dims[d]? = some r) :
+    step (finalState st0 ops) (.query h q) = (finalState st0 ops, answer (finalState st0 ops).srcs r.cfg q) := by
+  rw [step_query, (dimOfHandle_eq _ h d r).mpr ⟨hh, hd⟩]
+
+/-- the answers a history prints are the answers of its single steps, each in the state the
+preceding steps reached (what the driver prints for `["session", ops]` is `(run {} ops).2`) -/
+theorem session_run_answer (st0 : State) (ops : List Op) (k : Nat) :
+    (run st0 ops).2[k]? = ops[k]?.map fun op => (step (finalState st0 (ops.take k)) op).2 :=
+  run_answer st0 ops k
+
+/-- **a handle stands for the same dimension for ever, and a dimension keeps its kind**, whatever
+happens later through this or any other handle -/
+theorem session_handle_stable (st0 : State) (ops : List Op) (h d : Nat) (r : DimRec)
+    (hh : st0.handles[h]? = some d) (hd : st0.dims[d]? = some r) :
+    (finalState st0 ops).handles[h]? = some d ∧
+    ∃ r', (finalState st0 ops).dims[d]? = some r' ∧ kindOf r'.cfg = kindOf r.cfg :=
+  ⟨handle_kept (run_keeps st0 ops) h d hh, (run_keeps st0 ops).dims d r hd⟩
+
+/-- **a change made through one descriptor object is what every other descriptor object of that
+dimension converts with from then on** (the class of defect "state kept on the descriptor object"):
+`op` is any of the nine configuration changes, issued through `h`; the next question through ANY
+handle `h'` of the same dimension is answered for the record the change produced -/
+theorem session_change_visible (st : State) (op : Op) (h h' d : Nat) (r r' : DimRec) (e : Option Err) (q : Query)
+    (hc : IsCfgOp op) (hop : handleOf op = some h)
+    (hh : st.handles[h]? = some d) (hh' : st.handles[h']? = some d) (hd : st.dims[d]? = some r)
+    (ha : applyCfg st.srcs r op = some (r', e)) :
+    (step (step st op).1 (.query h' q)).2 = answer st.srcs r'.cfg q := by
+  have h1 : (step st op).1 = setDim st d r' := by
+    rw [step_cfg st op h hc hop]
+    unfold cfgStep
+    rw [(dimOfHandle_eq st h d r).mpr ⟨hh, hd⟩]
+    simp only [ha]
+    cases e <;> rfl
+  rw [h1, step_query]
+  have h2 : dimOfHandle (setDim st d r') h' = some (d, r') := by
+    rw [dimOfHandle_eq]
+    refine ⟨hh', ?_⟩
+    rw [setDim_get st d d r r' hd]
+    simp
+  rw [h2]
+  rfl
+
+/-- a change on ANOTHER dimension changes no answer of this one -/
+theorem session_change_elsewhere (st : State) (op : Op) (h h' d d' : Nat) (r : DimRec) (q : Query)
+    (hc : IsCfgOp op) (hop : handleOf op = some h)
+    (hh : st.handles[h]? = some d) (hh' : st.handles[h']? = some d') (hne : d' ≠ d)
+    (hd' : st.dims[d']? = some r) :
+    (step (step st op).1 (.query h' q)).2 = (step st (.query h' q)).2 := by
+  rw [step_cfg st op h hc hop]
+  rcases cfgStep_cases st op h with he | ⟨d0, r0, r0', e, hh0, hd0, _, he⟩
+  · rw [he]
+  · rw [he, step_query, step_query]
+    rw [hh] at hh0
+    cases hh0
+    have h2 : dimOfHandle (setDim st d r0') h' = some (d', r) := by
+      rw [dimOfHandle_eq]
+      refine ⟨hh', ?_⟩
+      rw [setDim_get st d d' r0 r0' hd0]
+      simp [hne, hd']
+    rw [h2, (dimOfHandle_eq st h' d' r).mpr ⟨hh', hd'⟩]
+    rfl
+
+/-- **every history keeps the stored ticks ascending** (the `ticks` setter refuses anything else,
+`append_range_dimension` stores none) — the invariant behind the next theorem -/
+theorem session_ticks_ascending (ops : List Op) (d : Nat) (r : DimRec) (t : List Rat) (l : Option Link)
+    (hd : (finalState {} ops).dims[d]? = some r) (hc : r.cfg = .range (some t) l) : AscendingList t := by
+  have := reachable_wf ops r (List.mem_of_getElem? hd)
+  rw [hc] at this
+  exact this
+
+/-- **index_of / range_indices on stored ticks, after any history, through any handle**: the answer
+is the requested sample of the ticks stored NOW — no hypothesis on the ticks (the invariant supplies
+"ascending"), none on who wrote them -/
+theorem session_range_index (ops : List Op) (h d : Nat) (r : DimRec) (t : List Rat) (pos : Rat) (mode : IndexMode)
+    (hm : mode ≠ .other)
+    (hh : (finalState {} ops).handles[h]? = some d) (hd : (finalState {} ops).dims[d]? = some r)
+    (hc : r.cfg = .range (some t) none) :
+    (step (finalState {} ops) (.query h (.indexOf pos mode))).2 = .idx (rangeIndexOf t pos mode) ∧
+    Meets mode (tickCoord t) (some t.length) pos (rangeIndexOf t pos mode) := by
+  refine ⟨?_, range_index t (session_ticks_ascending ops d r t none hd hc) pos mode hm⟩
+  rw [session_answer {} ops h d r _ hh hd, hc]
+  rfl
+
+theorem session_range_indices (ops : List Op) (h d : Nat) (r : DimRec) (t : List Rat) (s e : Rat) (m : SliceMode)
+    (hh : (finalState {} ops).handles[h]? = some d) (hd : (finalState {} ops).dims[d]? = some r)
+    (hc : r.cfg = .range (some t) none) :
+    ∃ res, (step (finalState {} ops) (.query h (.rangeIndices s e m))).2 = .pair res ∧
+      MeetsRange m (tickCoord t) (some t.length) s e res := by
+  have hasc := session_ticks_ascending ops d r t none hd hc
+  rw [session_answer {} ops h d r _ hh hd, hc]
+  by_cases hse : e < s
+  · refine ⟨.error .indexError, by simp [answer, hse], ?_⟩
+    exact empty_interval m _ _ s e hse
+  · refine ⟨rangeRangeIndices t s e m, by simp [answer, hse, ticksOf, Except.bind], ?_⟩
+    exact range_indices_range t hasc s e m
+
+/-- **linked ticks** (a vector of a 1-D / 2-D array, a column of a frame): the ticks are the values
+the link reads NOW from the source as last rewritten; where that vector is ascending, `index_of` is
+the requested sample of it; a link that cannot be read (index beyond the extent) is an `IndexError`
+from every conversion -/
+theorem session_linked_index (st : State) (h d : Nat) (r : DimRec) (st0 : Option (List Rat)) (l : Link)
+    (pos : Rat) (mode : IndexMode) (hm : mode ≠ .other)
+    (hh : st.handles[h]? = some d) (hd : st.dims[d]? = some r) (hc : r.cfg = .range st0 (some l)) :
+    (∀ t, readLink st.srcs l = .ok t → AscendingList t →
+      (step st (.query h (.indexOf pos mode))).2 = .idx (rangeIndexOf t pos mode) ∧
+      Meets mode (tickCoord t) (some t.length) pos (rangeIndexOf t pos mode)) ∧
+    (∀ err, readLink st.srcs l = .error err →
+      (step st (.query h (.indexOf pos mode))).2 = .idx (.error err)) := by
+  have hq : (step st (.query h (.indexOf pos mode))).2 =
+      .idx ((readLink st.srcs l).bind fun t => rangeIndexOf t pos mode) := by
+    rw [step_query, (dimOfHandle_eq st h d r).mpr ⟨hh, hd⟩]
+    show answer st.srcs r.cfg _ = _
+    rw [hc]
+    rfl
+  refine ⟨fun t ht hasc => ⟨?_, range_index t hasc pos mode hm⟩, fun err he => ?_⟩
+  · rw [hq, ht]; rfl
+  · rw [hq, he]; rfl
+
+/-- what a link reads: the whole 1-D array, column `k` / row `k` of a 2-D array, column `k` of a frame -/
+theorem link_values :
+    (∀ v, linkValues (.vec v) (.array [-1]) = .ok v) ∧
+    (∀ rows nc (k : Nat), k < nc → linkValues (.mat rows nc) (.array [-1, (k : Int)]) = colOf rows k) ∧
+    (∀ rows nc (k : Nat) row, rows[k]? = some row → linkValues (.mat rows nc) (.array [(k : Int), -1]) = .ok row) ∧
+    (∀ rows nc k, linkValues (.frame rows nc) (.column k) = colOf rows k) := by
+  refine ⟨fun v => rfl, ?_, ?_, fun _ _ _ => rfl⟩
+  · intro rows nc k hk
+    simp [linkValues, hk]
+  · intro rows nc k row hrow
+    simp [linkValues, hrow]
+
+/-- **sampled dimension after any history**: the conversions use the offset and interval stored
+NOW (offset attribute absent = 0); for a positive interval and a separated position the answer is
+the requested sample of the grid `offset + i * interval` -/
+theorem session_sampled_index (st0 : State) (ops : List Op) (h d : Nat) (r : DimRec) (off : Option Rat) (si pos : Rat)
+    (mode : IndexMode) (hsi : 0 < si) (hm : mode ≠ .other)
+    (hh : (finalState st0 ops).handles[h]? = some d) (hd : (finalState st0 ops).dims[d]? = some r)
+    (hc : r.cfg = .sampled off si) (hsep : SeparatedSampled (offOf off) si pos) :
+    (step (finalState st0 ops) (.query h (.indexOf pos mode))).2 = .idx (sampledIndexOf (offOf off) si pos mode) ∧
+    Meets mode (sampledCoord (offOf off) si) none pos (sampledIndexOf (offOf off) si pos mode) := by
+  refine ⟨?_, sampled_index (offOf off) si pos mode hsi hm hsep⟩
+  rw [session_answer st0 ops h d r _ hh hd, hc]
+  simp [answer, sampledIndexOfZ, ne_of_gt hsi]
+
+/-- **set dimension after any history**: the label count is the one stored (or linked) NOW -/
+theorem session_set_index (st0 : State) (ops : List Op) (h d : Nat) (r : DimRec) (sn : Option Nat) (l : Option Link)
+    (n : Nat) (pos : Rat) (mode : IndexMode) (hm : mode ≠ .other)
+    (hh : (finalState st0 ops).handles[h]? = some d) (hd : (finalState st0 ops).dims[d]? = some r)
+    (hc : r.cfg = .set sn l) (hn : labelCountOf (finalState st0 ops).srcs sn l = .ok n)
+    (hsep : SeparatedAt setHitTol pos) :
+    (step (finalState st0 ops) (.query h (.indexOf pos mode))).2 = .idx (setIndexOf n pos mode) ∧
+    Meets mode setCoord (setDom n) pos (setIndexOf n pos mode) := by
+  refine ⟨?_, set_index n pos mode hm hsep⟩
+  rw [session_answer st0 ops h d r _ hh hd, hc]
+  simp only [answer]
+  rw [setIndexOfS_eq _ sn l n pos mode hn]
+
+end Sessions
+
+/-! ## `sampling_interval ≤ 0` — outside the property (the validator rejects it), stated exactly -/
+
+/-- **a negative interval is converted as the mirror image**: the code computes with
+`(position - offset) / interval`, which is the scaled position of `-position` on the grid
+`-offset + i * (-interval)`; so for `interval < 0` the answer is the requested sample of THAT grid at
+`-position` (e.g. LessOrEqual returns the last `i` with `offset + i * interval ≥ position`) — not
+an error, and not what the property asks of a dimension with descending coordinates -/
+theorem negative_interval_mirror (off si pos : Rat) (mode : IndexMode) (hsi : si ≠ 0) :
+    sampledIndexOf off si pos mode = sampledIndexOf (-off) (-si) (-pos) mode := by
+  have hx : (pos - off) / si = (-pos - -off) / -si := by
+    rw [div_neg, ← neg_div]; congr 1; ring
+  unfold sampledIndexOf sampledIndexOfT
+  simp only [hsi, neg_eq_zero, if_false, hx]
+  rfl
+
+theorem negative_interval_meets (off si pos : Rat) (mode : IndexMode) (hsi : si < 0) (hm : mode ≠ .other)
+    (hsep : SeparatedSampled (-off) (-si) (-pos)) :
+    Meets mode (sampledCoord (-off) (-si)) none (-pos) (sampledIndexOf off si pos mode) := by
+  rw [negative_interval_mirror off si pos mode (ne_of_lt hsi)]
+  exact sampled_index (-off) (-si) (-pos) mode (by linarith) hm hsep
+
+/-- **a zero interval** (the setter accepts it): left of the offset the "before the first sample"
+branch answers (`-inf`), at the offset `ValueError` (`nan`), right of it `OverflowError` (`+inf`) -/
+theorem zero_interval (off pos : Rat) (mode : IndexMode) :
+    Nix.DimSession.sampledIndexOfZ off 0 pos mode =
+      (if pos < off then (if mode = .geq then .ok 0 else .error .indexError)
+       else if pos = off then .error .valueError else .error .overflowError) := by
+  unfold Nix.DimSession.sampledIndexOfZ
+  simp only [if_true]
+  by_cases h1 : pos < off
+  · simp [h1, sub_neg]
+  · by_cases h2 : pos = off
+    · simp [h2]
+    · have : ¬ pos - off < 0 := by rw [sub_neg]; exact h1
+      simp [h1, h2, this, sub_eq_zero]
+
+/-- for every non-zero interval `sampledIndexOfZ` is `sampledIndexOf` -/
+theorem nonzero_interval (off si pos : Rat) (mode : IndexMode) (h : si ≠ 0) :
+    Nix.DimSession.sampledIndexOfZ off si pos mode = sampledIndexOf off si pos mode := by
+  simp [Nix.DimSession.sampledIndexOfZ, h]
+
+/-! non-vacuity of the session theorems: a history in which the offset and interval are changed
+through handle 1 and handle 0 (opened before, and used) answers for the new grid -/
+example :
+    (Nix.DimSession.run {} [.appendSampled (1/2), .openH 0, .openH 0, .query 0 (.indexOf (5/4) .leq),
+      .setOffset 1 (some (-5/2)), .setInterval 1 (1/4), .query 0 (.indexOf (-15/8) .geq)]).2 =
+    [.unit, .unit, .unit, .idx (.ok 2), .unit, .unit, .idx (.ok 3)] := by decide +kernel
+example :
+    (Nix.DimSession.run {} [.appendRange, .newSrc (.mat [[0, 1, 2], [3, 4, 5]] 3), .openH 0, .openH 0,
+      .linkArray 1 0 [-1, 2], .query 0 (.indexOf 3 .less), .writeSrc 0 (.mat [[0, 1, 0], [3, 4, 9]] 3),
+      .query 0 (.indexOf 10 .less), .setTicks 1 [2, 1], .setTicks 1 [1, 2], .query 0 (.positionAt 1)]).2 =
+    [.unit, .unit, .unit, .unit, .unit, .idx (.ok 0), .unit, .idx (.ok 1), .fail .valueError, .unit,
+      .pos (.ok 2)] := by decide +kernel
+example : sampledIndexOf 0 (-1) (-3/2) .leq = .ok 1 ∧ sampledIndexOf 0 (-1) (-3/2) .geq = .ok 2 := by
   decide +kernel
 
 end Nix.C07
